@@ -1,10 +1,10 @@
-\* DEFECTIVE design (must be refuted): _dbeta_cache key with the grid length instead of the grid
+\* DEFECTIVE design (must be refuted): Spectrum.S restores the saved mask by rebinding _mask: a view is detached, its owner keeps the masked corners
 CONSTANTS
-  MaxDepth = 2
-  BaseSel = "memo"
-  LaySel = "C"
+  MaxDepth = 1
+  BaseSel = "all"
+  LaySel = "all"
   ProjKeyMode = "full"
-  DbetaKeyMode = "len_only"
+  DbetaKeyMode = "full"
   PartKeyMode = "full"
   EntryMode = "copy_all"
   XXMode = "contig"
@@ -14,7 +14,7 @@ CONSTANTS
   HashMode = "ordered"
   SFSMode = "copies"
   VectorMode = "copies"
-  MaskMode = "setter"
+  MaskMode = "rebind"
   KernelMode = "stateless"
   MaxTable = 60
 SPECIFICATION Spec
